@@ -9,6 +9,7 @@ tables.  Not decided: numeric results beyond operator identity and value kind.
 from __future__ import annotations
 
 import ast
+import re
 
 from ..decision import NOTHING, Evaluator, Hooks, Sym, vtext
 from ..model import AnalysisError, callee, const, dotted, strip_doc, u, walk_no_nested
@@ -425,24 +426,73 @@ def r6(ctx):
             ctx.ok(f"preprocessor:ExpressionEvaluator.term:suffix:{s}")
     for s in suffixes:
         ctx.check(s in C_SUFFIXES, f"preprocessor:ExpressionEvaluator.term:suffix-known:{s}", f"{s!r} is not a C integer suffix", term.loc())
-    # unsignedness test
-    un = [n for n in walk_no_nested(term.node) if isinstance(n, ast.If) and "suffix" in u(n.test) and "np.uint64" in u(n.body)]
-    ok = len(un) == 1 and u(un[0].test) in ("suffix and 'u' in suffix.lower()",) and u(un[0].orelse).startswith("return np.int64(")
-    ctx.soft(ok, "preprocessor:ExpressionEvaluator.term:unsigned-iff-u-suffix", f"value must be uint64 iff the suffix contains u/U, int64 otherwise: {[u(x.test) for x in un]}", term.loc())
-    # the suffix loop strips exactly the matched suffix once
-    loops = [n for n in walk_no_nested(term.node) if isinstance(n, ast.For) and u(n.iter) == "suffixes"]
-    ok = len(loops) == 1
-    if ok:
-        body = loops[0].body
-        ok = (
-            len(body) == 1 and isinstance(body[0], ast.If) and u(body[0].test) == f"value.endswith({u(loops[0].target)})"
-            and any(u(s) == f"value = value[:-len({u(loops[0].target)})]" for s in body[0].body)
-            and isinstance(body[0].body[-1], ast.Break)
-        )
-    ctx.soft(ok, "preprocessor:ExpressionEvaluator.term:suffix-strip", "suffix loop must strip the first (longest) matching suffix exactly once and stop", term.loc())
-    # conversion
-    conv = [n for n in walk_no_nested(term.node) if isinstance(n, ast.Call) and u(n.func) == "int" and len(n.args) == 2]
-    ctx.soft(len(conv) == 1 and [u(a) for a in conv[0].args] == ["value", "base"], "preprocessor:ExpressionEvaluator.term:int-conversion", "value must be int(value, base)", term.loc())
+    # integer literal -> value, as a table specification over the decision table of term(): with T the literal's text,
+    #   base    = 16 / 2 when T starts with 0x,0X / 0b,0B (digits = T[2:]), else 10 (digits = T)
+    #   suffix  = the FIRST entry of the suffix list the digits end with: stripped once, exactly its length
+    #   result  = np.uint64(int(digits, base)) iff the suffix contains u/U, else np.int64(...)
+    from ..spec import atoms as _atoms, split_top as _split_top, tab as _tab, vt as _vt
+
+    T = "self.match_type(NumericalConstant).token"
+    BASES = {"0x": 16, "0X": 16, "0b": 2, "0B": 2}
+    n_lit = 0
+    # a suffix search written as a loop stops at its first match (a loop that goes on would strip `ul`, then `u` ...;
+    # its table has 2^|suffixes| cases, so this is decided on the loop itself)
+    for lp in [n for n in term.body_nodes() if isinstance(n, ast.For)]:
+        for iff in [x for x in lp.body if isinstance(x, ast.If) and ".endswith(" in u(x.test)]:
+            subj = u(iff.test).split(".endswith(")[0]
+            strips = any(isinstance(x, ast.Assign) and u(x.targets[0]) == subj for x in ast.walk(iff))
+            stops = any(isinstance(x, (ast.Break, ast.Return)) for x in iff.body)
+            ctx.check(stops or not strips, "preprocessor:ExpressionEvaluator.term:suffix-strip", f"the suffix loop strips `{subj}` and goes on searching: after `ul` the remaining `...u`/`...l` forms are tested against the already stripped digits; it must stop at the first (longest) match", term.loc(iff))
+            if strips and not stops:
+                return
+    for p in _tab(term, unroll=1):
+        if p.result[0] != "return" or T not in _vt(p.result[1]):
+            continue
+        res = _vt(p.result[1])
+        at = _atoms(p)
+        in_dict = next((v for k, v in at.items() if k.startswith(f"{T}[0:2] In ") or k.startswith(f"{T}[:2] In ")), None)
+        pref = [c for c in BASES if at.get(f"'{c}' Eq {T}[0:2]") or at.get(f"'{c}' Eq {T}[:2]") or at.get(f"{T}.startswith('{c}')")]
+        if in_dict and not pref:
+            continue  # infeasible: in the table but equal to none of its keys
+        if len(pref) > 1:
+            continue
+        V0 = f"{T}[2:]" if pref else T
+        want_base = BASES[pref[0]] if pref else 10
+        m = re.fullmatch(r"np\.(u?int64)\(int\((.+)\)\)", res)
+        if not m:
+            raise AnalysisError(f"term: value of an integer literal not recognised: {res[:120]}")
+        parts = _split_top(m.group(2))
+        if len(parts) != 2:
+            ctx.violation("preprocessor:ExpressionEvaluator.term:int-conversion", f"the digits must be converted with their base, int(digits, base): int({m.group(2)[:80]})", term.loc())
+            continue
+        value, base = parts
+        mb = re.fullmatch(r"dict:\{.*\}\[(.+)\]", base)
+        if mb:
+            base = str(want_base) if pref and mb.group(1) in (f"{T}[0:2]", f"{T}[:2]") else base
+        key = f"preprocessor:ExpressionEvaluator.term:literal:prefix={pref[0] if pref else '-'}"
+        if not re.fullmatch(r"\d+", base):
+            raise AnalysisError(f"term: base of an integer literal not recognised: {base[:80]}")
+        ctx.check(int(base) == want_base, key + ":base", f"a literal {'starting with ' + pref[0] if pref else 'without prefix'} must be read in base {want_base}, not {base}", term.loc())
+        hits = [(k, re.fullmatch(r"(.+)\.endswith\('(\w+)'\)", k)) for k, v in at.items() if v and ".endswith('" in k]
+        hits = [(mm.group(1), mm.group(2)) for k, mm in hits if mm]
+        n_lit += 1
+        if len(hits) > 1:
+            ctx.violation("preprocessor:ExpressionEvaluator.term:suffix-strip", f"after the suffix `{hits[0][1]}` a second suffix test succeeds (`{hits[1][0][-20:]}.endswith('{hits[1][1]}')`): the suffix list must be searched once, stopping at the first (longest) match", term.loc())
+            continue
+        sfx = hits[0][1] if hits else None
+        if hits and hits[0][0] not in (V0, T):
+            raise AnalysisError(f"term: suffix tested on `{hits[0][0][:80]}`")
+        want_value = [V0] if sfx is None else [f"{V0}[:-{len(sfx)}]", f"{V0}[:-len('{sfx}')]", f"{V0}.removesuffix('{sfx}')"]
+        mk = re.fullmatch(re.escape(V0) + r"\[:-(\d+)\]", value)
+        if value not in want_value:
+            if mk or value in (T, V0, f"{T}[2:]"):
+                ctx.violation("preprocessor:ExpressionEvaluator.term:suffix-strip", f"a literal ending in `{sfx}` is converted from `{value[-40:]}`; exactly the {len(sfx) if sfx else 0} suffix character(s) must be stripped (`{want_value[0][-40:]}`)", term.loc())
+                continue
+            raise AnalysisError(f"term: digits of an integer literal not recognised: {value[:100]}")
+        want_t = "uint64" if sfx and "u" in sfx.lower() else "int64"
+        ctx.check(m.group(1) == want_t, f"preprocessor:ExpressionEvaluator.term:unsigned-iff-u-suffix:{sfx or '-'}", f"a literal with suffix `{sfx}` must be {want_t} (unsigned iff the suffix contains u/U), not {m.group(1)}", term.loc())
+    if n_lit < 20:
+        raise AnalysisError(f"term: only {n_lit} integer-literal paths understood")
     # D7: unsuffixed literal >= 2**63 (pinned by tests/failure/test_bignum)
     signed = [n for n in walk_no_nested(term.node) if isinstance(n, ast.Return) and u(n.value) == "np.int64(int_value)"]
     if signed:
